@@ -350,26 +350,7 @@ theorem spec_accepts_model (l s T : Nat) (hl : l < 2 ^ 256) (hs : 1 ≤ s) (ops 
     (hv : ∀ o ∈ ops, o.Valid) :
     specDump l s ((Table.new l s T).run ops).dump = true := by
   have h := inv l s T hl hs ops hv
-  have hloc : ((Table.new l s T).run ops).localKey = l := by
-    have : ∀ (ops : List Op) (t : Table), (t.run ops).localKey = t.localKey := by
-      intro ops
-      induction ops with
-      | nil => intro t; rfl
-      | cons o os ih =>
-        intro t
-        show ((t.step o).1.run os).localKey = _
-        rw [ih]
-        cases o <;> simp only [Table.step]
-        all_goals first
-          | rfl
-          | (rename_i key _ _; cases ha : t.access key with
-             | none => rfl
-             | some it1 =>
-               obtain ⟨i, t1⟩ := it1
-               simp only []
-               have := access_local ha
-               (repeat' split) <;> first | exact this | rfl)
-    exact this ops _
+  have hloc : ((Table.new l s T).run ops).localKey = l := run_local ops _
   have := spec_dump h s (fun i hi => by rw [run_cap, bucket_new l s T i hi]; rfl)
   rw [hloc] at this
   exact this
